@@ -181,16 +181,13 @@ Qed.
 Lemma select_inv g pop ps :
   pop <> [] -> parents_ok (length pop) ps -> Forall (P g) pop -> Forall (P g) (select c pop ps).
 Proof.
-  intros Hne Hps HP. unfold select.
-  assert (W : Forall (P g) (map (fun j => clone_as (max_idx pop + 1 + j) (nth (nth j ps 0) pop dflt))
-                               (seq 0 (if elitism c then tour_pop c - 1 else tour_pop c)))).
-  { apply Forall_forall. intros x Hx. apply in_map_iff in Hx. destruct Hx as (j & <- & _).
-    apply P_clone. rewrite Forall_forall in HP. apply HP. apply nth_In. apply Hps. }
-  destruct (elitism c); [|exact W].
-  constructor; [|exact W].
-  rewrite Forall_forall in HP. apply HP. apply nth_In. unfold elite_pos.
-  rewrite <- (map_length (mean_last (eval_loop c)) pop). apply best_pos_lt.
-  destruct pop; [congruence|discriminate].
+  intros Hne Hps HP. unfold select. rewrite Forall_forall in HP.
+  destruct (elitism c).
+  - constructor; [apply HP; apply nth_In; apply Hps|].
+    apply Forall_forall. intros x Hx. apply in_map_iff in Hx. destruct Hx as (j & <- & _).
+    apply P_clone. apply HP. apply nth_In. apply Hps.
+  - apply Forall_forall. intros x Hx. apply in_map_iff in Hx. destruct Hx as (j & <- & _).
+    apply P_clone. apply HP. apply nth_In. apply Hps.
 Qed.
 
 Lemma select_length pop ps : 1 <= tour_pop c -> length (select c pop ps) = tour_pop c.
@@ -332,22 +329,19 @@ Proof.
 Qed.
 
 Lemma select_nodup c pop ps :
-  pop <> [] -> NoDup (map idx pop) -> NoDup (map idx (select c pop ps)).
+  NoDup (map idx pop) -> NoDup (map idx (select c pop ps)).
 Proof.
-  intros Hne Hnd. unfold select.
-  set (k := if elitism c then tour_pop c - 1 else tour_pop c).
-  assert (W : map idx (map (fun j => clone_as (max_idx pop + 1 + j) (nth (nth j ps 0) pop dflt)) (seq 0 k))
-              = map (fun j => max_idx pop + 1 + j) (seq 0 k)).
-  { rewrite map_map. apply map_ext. intros j. reflexivity. }
-  assert (Wnd : NoDup (map (fun j => max_idx pop + 1 + j) (seq 0 k))).
-  { apply Injective_map_NoDup; [|apply seq_NoDup]. intros x y. lia. }
-  destruct (elitism c); cbn [map]; rewrite W; [|exact Wnd].
-  constructor; [|exact Wnd].
-  intros Hin. apply in_map_iff in Hin. destruct Hin as (j & E & _).
-  assert (In (nth (elite_pos c pop) pop dflt) pop).
-  { apply nth_In. unfold elite_pos. rewrite <- (map_length (mean_last (eval_loop c)) pop).
-    apply best_pos_lt. destruct pop; [congruence|discriminate]. }
-  pose proof (max_idx_ge pop _ H). lia.
+  intros Hnd. unfold select.
+  assert (Wnd : forall k, NoDup (map (fun j => max_idx pop + 1 + j) (seq 0 k))).
+  { intros k. apply Injective_map_NoDup; [|apply seq_NoDup]. intros x y. lia. }
+  destruct (elitism c); cbn [map]; rewrite map_map.
+  - rewrite (map_ext _ (fun j => max_idx pop + 1 + j)) by (intros; reflexivity).
+    constructor; [|apply Wnd].
+    intros Hin. apply in_map_iff in Hin. destruct Hin as (j & E & _).
+    assert (idx (nth (nth 0 ps 0) pop dflt) <= max_idx pop).
+    { destruct (nth_in_or_default (nth 0 ps 0) pop dflt) as [H|H]; [apply max_idx_ge; exact H|rewrite H; cbn; lia]. }
+    lia.
+  - rewrite (map_ext _ (fun j => max_idx pop + 1 + j)) by (intros; reflexivity). apply Wnd.
 Qed.
 
 Lemma gen_nodup c st inp :
@@ -358,9 +352,7 @@ Proof.
   { rewrite eval_pop_idx, train_pop_idx. reflexivity. }
   destruct (gen_pop_cases c st inp) as [E|E]; rewrite E.
   - rewrite E2. exact Hnd.
-  - apply select_nodup; [|rewrite E2; exact Hnd].
-    intros Z. apply (f_equal (@length agent)) in Z. rewrite eval_pop_length, train_pop_length in Z.
-    destruct (pop st); [congruence|discriminate].
+  - apply select_nodup. rewrite E2. exact Hnd.
 Qed.
 
 Lemma gens_n_nodup c inp : forall n st g,
@@ -421,44 +413,55 @@ Proof.
   intros z [<-|[]]. apply Qle_refl.
 Qed.
 
-Lemma elite_carried_lemma c pop ps :
-  elitism c = true -> pop <> [] ->
-  let e := nth (elite_pos c pop) pop dflt in
-  elite_pos c pop < length pop /\
-  hd dflt (select c pop ps) = e /\ In e pop /\
-  forall a, In a pop -> (mean_last (eval_loop c) a <= mean_last (eval_loop c) e)%Q.
+(* what is required of the individual kept as elite, in Prop *)
+Lemma elite_okb_spec c pop e :
+  elite_okb c pop e = true ->
+  e < length pop /\ In (nth e pop dflt) pop /\
+  forall a, In a pop -> (mean_last (eval_loop c) a <= mean_last (eval_loop c) (nth e pop dflt))%Q.
 Proof.
-  intros He Hne e.
+  unfold elite_okb. intros H. apply andb_true_iff in H. destruct H as [A B].
+  apply Nat.ltb_lt in A. split; [exact A|]. split; [apply nth_In; exact A|].
+  intros a Ha. rewrite forallb_forall in B. apply Qle_bool_iff. apply B. exact Ha.
+Qed.
+
+(* the requirement is satisfiable: the last individual with maximal mean fitness (what a stable argsort picks) meets it *)
+Lemma elite_pos_ok c pop : pop <> [] -> elite_okb c pop (elite_pos c pop) = true.
+Proof.
+  intros Hne. unfold elite_okb.
   assert (Hlt : elite_pos c pop < length pop).
   { unfold elite_pos. rewrite <- (map_length (mean_last (eval_loop c)) pop). apply best_pos_lt.
     destruct pop; [congruence|discriminate]. }
-  split; [exact Hlt|]. split; [unfold select; rewrite He; reflexivity|].
-  split; [apply nth_In; exact Hlt|].
-  intros a Ha.
+  apply andb_true_iff. split; [apply Nat.ltb_lt; exact Hlt|].
+  apply forallb_forall. intros a Ha. apply Qle_bool_iff.
   pose proof (best_pos_max (map (mean_last (eval_loop c)) pop) (mean_last (eval_loop c) a) (in_map _ _ _ Ha)) as H.
   fold (elite_pos c pop) in H.
   rewrite (nth_indep _ 0%Q (mean_last (eval_loop c) dflt)) in H by (rewrite map_length; exact Hlt).
   rewrite map_nth in H. exact H.
 Qed.
 
-Lemma gen_elite_lemma c st inp e :
-  pop st <> [] -> o_elite (snd (gen c st inp)) = Some e ->
-  let p2 := o_tested (snd (gen c st inp)) in
-  e < length p2 /\ hd dflt (pop (fst (gen c st inp))) = nth e p2 dflt /\
-  forall a, In a p2 -> (mean_last (eval_loop c) a <= mean_last (eval_loop c) (nth e p2 dflt))%Q.
+Lemma elite_carried_lemma c pop ps :
+  elitism c = true -> elite_okb c pop (nth 0 ps 0) = true ->
+  let e := nth (nth 0 ps 0) pop dflt in
+  hd dflt (select c pop ps) = e /\ In e pop /\
+  forall a, In a pop -> (mean_last (eval_loop c) a <= mean_last (eval_loop c) e)%Q.
 Proof.
-  intros Hne. unfold gen.
-  pose proof (train_pop_length c (pop st) (g_hps inp) (memo st)) as HL.
-  destruct (train_pop c (g_hps inp) (pop st) (memo st)) as [[p1 m1] rs]. cbn [fst] in HL.
-  destruct (early_stop c (eval_pop p1 (g_fit inp))); cbn [snd fst o_elite o_tested pop]; [discriminate|].
-  destruct (evolves c st (eval_pop p1 (g_fit inp))); cbn [andb]; [|discriminate].
-  destruct (elitism c) eqn:He; [|discriminate].
-  intros [= <-].
-  assert (Hp2 : eval_pop p1 (g_fit inp) <> []).
-  { intros Z. apply (f_equal (@length agent)) in Z. rewrite eval_pop_length, HL in Z.
-    destruct (pop st); [congruence|discriminate]. }
-  destruct (elite_carried_lemma c (eval_pop p1 (g_fit inp)) (g_parents inp) He Hp2) as (A & B & _ & D).
-  repeat split; assumption.
+  intros He Hok e. destruct (elite_okb_spec c pop _ Hok) as (_ & B & C).
+  split; [unfold select; rewrite He; reflexivity|]. split; assumption.
+Qed.
+
+Lemma gen_elite_lemma c st inp :
+  elitism c = true -> o_evolved (snd (gen c st inp)) = true -> o_elite_ok (snd (gen c st inp)) = true ->
+  let p2 := o_tested (snd (gen c st inp)) in
+  let e := nth (nth 0 (g_parents inp) 0) p2 dflt in
+  hd dflt (pop (fst (gen c st inp))) = e /\ In e p2 /\
+  forall a, In a p2 -> (mean_last (eval_loop c) a <= mean_last (eval_loop c) e)%Q.
+Proof.
+  intros He. unfold gen.
+  destruct (train_pop c (g_hps inp) (pop st) (memo st)) as [[p1 m1] rs].
+  destruct (early_stop c (eval_pop p1 (g_fit inp))); cbn [snd fst o_evolved o_elite_ok o_tested pop]; [discriminate|].
+  destruct (evolves c st (eval_pop p1 (g_fit inp))); [|discriminate].
+  rewrite He. cbn [andb]. intros _ Hok.
+  exact (elite_carried_lemma c (eval_pop p1 (g_fit inp)) (g_parents inp) He Hok).
 Qed.
 
 (* ------------------------------------------------------------------ termination *)
@@ -720,4 +723,158 @@ Proof.
   rewrite IH.
   - cbn [r_learn Nat.mul]. rewrite (proj2 (Nat.leb_le _ _) H). lia.
   - pose proof (mem_len_mono c 1 (mem_add c 1 m)). lia.
+Qed.
+
+(* ------------------------------------------------------------------ summed budget (multi-agent on-policy loop) *)
+
+Lemma guard_uniform_sum c pop v :
+  lp c = MAOn -> Forall (fun a => cur a = v) pop -> guard c pop = (length pop * v <? max_steps c).
+Proof.
+  intros Hl HF. unfold guard. rewrite Hl.
+  assert (E : fold_right Nat.add 0 (map cur pop) = length pop * v).
+  { induction pop as [|a p IH]; cbn [map fold_right length]; [reflexivity|].
+    inversion HF; subst. rewrite IH by assumption. lia. }
+  rewrite E. reflexivity.
+Qed.
+
+Lemma run_uniform_sum c S0 inp :
+  lp c = MAOn -> target c = None -> 0 < S0 -> 1 <= tour_pop c -> stream_ok (hp_steps c S0) (tour_pop c) inp ->
+  forall fuel st g,
+  length (pop st) = tour_pop c -> Forall (fun a => cur a = g * S0) (pop st) ->
+  max_steps c <= fuel + tour_pop c * (g * S0) -> (g = 0 \/ tour_pop c * ((g - 1) * S0) < max_steps c) ->
+  exists st' G, run fuel c st inp g = Some (st', G) /\
+                Forall (fun a => cur a = G * S0) (pop st') /\
+                max_steps c <= tour_pop c * (G * S0) /\ (G = 0 \/ tour_pop c * ((G - 1) * S0) < max_steps c) /\ g <= G.
+Proof.
+  intros Hl Ht HS H1 Hs. induction fuel as [|f IH]; intros st g HL HF Hfuel Hprev; cbn [run];
+    rewrite (guard_uniform_sum c (pop st) (g * S0) Hl HF), HL;
+    destruct (Nat.ltb_spec (tour_pop c * (g * S0)) (max_steps c)) as [Hlt|Hge]; try lia.
+  - exists st, g. repeat split; auto.
+  - destruct (gen c st (inp g)) as [st1 o] eqn:Eg.
+    pose proof (gen_no_stop c st (inp g) Ht) as Hno. rewrite Eg in Hno. cbn [snd] in Hno. rewrite Hno.
+    destruct (Hs g) as [Hok Hps].
+    assert (HF1 : Forall (fun a => cur a = S g * S0) (pop st1)).
+    { pose proof (gen_inv c (hp_steps c S0) (fun g a => cur a = g * S0) (uniform_step c S0)
+                    (fun g a i E => E) g st (inp g)) as X.
+      rewrite Eg in X. cbn [fst] in X. apply X; auto.
+      - destruct (pop st); [cbn in HL; lia|discriminate].
+      - rewrite HL. exact Hps. }
+    assert (HL1 : length (pop st1) = tour_pop c).
+    { pose proof (gen_length c st (inp g) HL H1) as X. rewrite Eg in X. exact X. }
+    destruct (IH st1 (S g) HL1 HF1) as (st' & G & R & A & B & C & D).
+    + nia.
+    + right. replace (S g - 1) with g by lia. exact Hlt.
+    + exists st', G. repeat split; auto. lia.
+  - exists st, g. repeat split; auto.
+Qed.
+
+Lemma terminates_at_sum_lemma c S0 inp pop0 :
+  lp c = MAOn -> target c = None -> 0 < S0 -> 1 <= tour_pop c -> length pop0 = tour_pop c ->
+  Forall (fun a => cur a = 0) pop0 ->
+  stream_ok (hp_steps c S0) (tour_pop c) inp ->
+  exists st' G, run (max_steps c + 1) c (init_state pop0) inp 0 = Some (st', G) /\
+                Forall (fun a => cur a = G * S0) (pop st') /\
+                max_steps c <= tour_pop c * (G * S0) /\ (G = 0 \/ tour_pop c * ((G - 1) * S0) < max_steps c).
+Proof.
+  intros Hl Ht HS H1 HL H0 Hs.
+  destruct (run_uniform_sum c S0 inp Hl Ht HS H1 Hs (max_steps c + 1) (init_state pop0) 0) as (st' & G & R & A & B & C & _);
+    auto; try lia.
+  exists st', G. auto.
+Qed.
+
+(* ------------------------------------------------------------------ early stop *)
+Lemma early_stop_sound_lemma c st inp :
+  o_stop (snd (gen c st inp)) = true ->
+  let p2 := o_tested (snd (gen c st inp)) in
+  pop (fst (gen c st inp)) = p2 /\
+  exists t, target c = Some t /\
+            (forall a, In a p2 -> (t < mean_last 10 a)%Q) /\
+            100 <= length (stp (hd dflt p2)).
+Proof.
+  unfold gen. destruct (train_pop c (g_hps inp) (pop st) (memo st)) as [[p1 m1] rs].
+  destruct (early_stop c (eval_pop p1 (g_fit inp))) eqn:E; cbn [snd fst o_stop o_tested pop]; [|discriminate].
+  intros _. split; [reflexivity|].
+  unfold early_stop in E. destruct (target c) as [t|]; [|discriminate].
+  exists t. split; [reflexivity|].
+  apply andb_true_iff in E. destruct E as [A B]. split.
+  - intros a Ha. rewrite forallb_forall in A. specialize (A a Ha).
+    apply negb_true_iff in A. apply Qnot_le_lt. intros H. apply Qle_bool_iff in H. congruence.
+  - apply Nat.leb_le. exact B.
+Qed.
+
+(* ------------------------------------------------------------------ checkpoint trigger *)
+
+Lemma gen_ck c st inp :
+  target c = None ->
+  ck_count (fst (gen c st inp)) =
+    if negb (checkpoint c =? 0) && (ck_count st <? cur (hd dflt (pop (fst (gen c st inp)))) / checkpoint c)
+    then S (ck_count st) else ck_count st.
+Proof.
+  intros Ht. unfold gen. destruct (train_pop c (g_hps inp) (pop st) (memo st)) as [[p1 m1] rs].
+  unfold early_stop. rewrite Ht. cbn [fst pop ck_count].
+  destruct (negb (checkpoint c =? 0) && _); reflexivity.
+Qed.
+
+Lemma ck_arith g S0 k :
+  0 < k ->
+  (if Nat.min g (g * S0 / k) <? (S g * S0) / k then S (Nat.min g (g * S0 / k)) else Nat.min g (g * S0 / k))
+  = Nat.min (S g) (S g * S0 / k).
+Proof.
+  intros Hk.
+  assert (Hmono : g * S0 / k <= S g * S0 / k) by (apply Nat.div_le_mono; lia).
+  destruct (le_lt_dec k S0) as [Hge|Hlt].
+  - (* at least one multiple is crossed in every generation: one checkpoint per generation *)
+    assert (A : g <= g * S0 / k) by (apply Nat.div_le_lower_bound; nia).
+    assert (B : S g <= S g * S0 / k) by (apply Nat.div_le_lower_bound; nia).
+    rewrite (Nat.min_l g) by exact A. rewrite (Nat.min_l (S g)) by exact B.
+    destruct (Nat.ltb_spec g (S g * S0 / k)); lia.
+  - assert (C : S g * S0 / k <= g * S0 / k + 1).
+    { replace (g * S0 / k + 1) with ((g * S0 + 1 * k) / k) by (rewrite Nat.div_add by lia; reflexivity).
+      apply Nat.div_le_mono; lia. }
+    assert (D : g * S0 / k <= g).
+    { destruct g as [|g']; [cbn; rewrite Nat.div_0_l by lia; lia|].
+      apply Nat.lt_le_incl. apply Nat.div_lt_upper_bound; nia. }
+    assert (E : S g * S0 / k <= S g).
+    { apply Nat.lt_le_incl. apply Nat.div_lt_upper_bound; nia. }
+    rewrite (Nat.min_r g) by exact D. rewrite (Nat.min_r (S g)) by exact E.
+    destruct (Nat.ltb_spec (g * S0 / k) (S g * S0 / k)); lia.
+Qed.
+
+Lemma gens_n_ck c S0 inp :
+  target c = None -> 0 < checkpoint c -> 1 <= tour_pop c -> stream_ok (hp_steps c S0) (tour_pop c) inp ->
+  forall n st g,
+  length (pop st) = tour_pop c -> Forall (fun a => cur a = g * S0) (pop st) ->
+  ck_count st = Nat.min g (g * S0 / checkpoint c) ->
+  ck_count (gens_n n c st inp g) = Nat.min (g + n) ((g + n) * S0 / checkpoint c).
+Proof.
+  intros Ht Hk H1 Hs. induction n as [|n IH]; intros st g HL HF Hc; cbn [gens_n].
+  - rewrite Nat.add_0_r. exact Hc.
+  - replace (g + S n) with (S g + n) by lia.
+    destruct (Hs g) as [Hok Hps].
+    assert (HF1 : Forall (fun a => cur a = S g * S0) (pop (fst (gen c st (inp g))))).
+    { apply (gen_inv c (hp_steps c S0) (fun g a => cur a = g * S0) (uniform_step c S0) (fun g a i E => E)); auto.
+      - destruct (pop st); [cbn in HL; lia|discriminate].
+      - rewrite HL. exact Hps. }
+    assert (HL1 : length (pop (fst (gen c st (inp g)))) = tour_pop c) by (apply gen_length; assumption).
+    apply IH; auto.
+    rewrite gen_ck by exact Ht.
+    assert (Hhd : cur (hd dflt (pop (fst (gen c st (inp g))))) = S g * S0).
+    { destruct (pop (fst (gen c st (inp g)))) as [|a p]; [cbn in HL1; lia|]. inversion HF1; subst. assumption. }
+    rewrite Hhd, Hc.
+    replace (negb (checkpoint c =? 0)) with true by (symmetry; apply negb_true_iff; apply Nat.eqb_neq; lia).
+    cbn [andb]. apply ck_arith. exact Hk.
+Qed.
+
+(* uniform loops: after the G generations of [terminates_at] exactly min(G, G*S // checkpoint) checkpoints were written:
+   one per crossed multiple of the frequency, at most one per generation *)
+Lemma checkpoint_count_lemma c S0 inp pop0 fuel st' G :
+  target c = None -> 0 < checkpoint c -> 1 <= tour_pop c -> length pop0 = tour_pop c ->
+  Forall (fun a => cur a = 0) pop0 ->
+  stream_ok (hp_steps c S0) (tour_pop c) inp ->
+  run fuel c (init_state pop0) inp 0 = Some (st', G) ->
+  ck_count st' = Nat.min G (G * S0 / checkpoint c).
+Proof.
+  intros Ht Hk H1 HL H0 Hs Hr.
+  destruct (run_is_gens_n c inp _ _ _ _ _ Hr) as (n & -> & -> & _).
+  apply (gens_n_ck c S0 inp Ht Hk H1 Hs n (init_state pop0) 0); auto.
 Qed.
